@@ -181,6 +181,16 @@ def run(ctx):
             ok = ok or (ts and isinstance(g.nodes[ts[0]].stmt, ast.Raise))
         r2.check(ok, "row loop:pop guard", "pop is dominated by the mismatch/underflow check that raises", w2j.loc(c))
         r2.check(any("end_control_parse" in t for t in guard_texts(g.nodes[nid].stmt, stop=loop)), "row loop:pop guard2", "frames are popped only for end-control rows", w2j.loc(c))
+    # leaving any group or repeat ends a table-list context: the pending list name is cleared on every path from the pop
+    # to the end of the iteration (a state that survives `end repeat` forces list-nolabel on unrelated later selects)
+    tl_vars = {t.id for x in walk_own(w2j.node) if isinstance(x, ast.Assign) and isinstance(x.value, ast.Constant) and x.value.value is None
+               for t in x.targets if isinstance(t, ast.Name) and "table_list" in t.id}
+    if len(pops) == 1 and tl_vars:
+        nid, c = pops[0]
+        clears = set(g.nodes_for(lambda n: isinstance(n.stmt, ast.Assign) and isinstance(n.stmt.value, ast.Constant) and n.stmt.value.value is None
+                                 and any(isinstance(t, ast.Name) and t.id in tl_vars for t in n.stmt.targets)))
+        r2.check(bool(clears) and g.must_pass(nid, g.exit, clears, skip_labels=frozenset({"exc"})), "row loop:table-list cleared on end",
+                 "every end-control path clears the table-list state before the next row", w2j.loc(c))
     head = [x for x in loop.body[:3] if isinstance(x, ast.If)]
     top = [x for x in walk_own(loop) if isinstance(x, ast.Assign) and isinstance(x.targets[0], ast.Name) and x.targets[0].id == "parent_children_array"
            and norm(x.value) == "stack[-1]['parent_children']"]
